@@ -160,7 +160,7 @@ Definition decide_now (s : st) (a : akind) : decision :=
   match a with
   | AKNone => DTorChooses
   | AKDoNot => DNothing
-  | AKNotCirc | AKRaise | AKForeign => DInvalid
+  | AKNotCirc _ | AKRaise | AKForeign => DInvalid
   | AKCirc oid =>
       match nth_error (objs s) oid with
       | Some c => if cstatus_eqb (c_st c) CBuilt then DAttach (c_id c) else DInvalid
